@@ -13,9 +13,115 @@ def optnat(x):
     return "None" if x is None else f"(Some {x}%nat)"
 
 
+class TcpGlue(Plugin):
+    """M-TCPGLUE: the real TcpTransport::connect_to_addrs over 127.0.0.1 (harness bin tcpglue) against
+    he/Tcp.v.  case = {"kind": "tcp", "timeout": ns|None, "conc": k|None, "pattern": "LCL.."}"""
+    harness_bin = "tcpglue"
+    header = "From HD Require Import common.Base he.Model he.Spec he.Tcp he.TcpCorr.\nOpen Scope N_scope."
+    check_fn = "check_all_tcp"
+    shard = 200
+    impl_jobs = 1
+    MS = 1000000
+    TIMEOUTS = (None, 500 * MS, 1000 * MS, 1000 * MS + 7, 2500 * MS + 1, 30000 * MS, 3600000 * MS + 11)
+
+    def patterns(self, n, rng, extra):
+        if n <= 3:
+            return ["".join(p) for p in itertools.product("CL", repeat=n)]
+        ps = {"C" * n, "L" * n, "C" * (n - 1) + "L", "L" + "C" * (n - 1), "C" + "L" * (n - 1)}
+        while len(ps) < 5 + extra:
+            ps.add("".join(rng.choice("CCL") for _ in range(n)))
+        return sorted(ps)
+
+    def grid(self, rng, extra):
+        for n in range(0, 7):
+            for pat in self.patterns(n, rng, extra):
+                for t in self.TIMEOUTS:
+                    for c in sorted({None, 0, 1, 2, n}, key=lambda x: (x is None, x)):
+                        yield {"kind": "tcp", "timeout": t, "conc": c, "pattern": pat}
+
+    def generate(self, tier, rng):
+        full = list(self.grid(rng, 2 if tier == "quick" else 8))
+        if tier == "quick":
+            rng.shuffle(full)
+            keep, seen = [], set()
+            for c in full:       # every (n, timeout set?, conc) class at least once, then fill up
+                k = (len(c["pattern"]), c["timeout"] is None, c["conc"])
+                if k not in seen:
+                    seen.add(k)
+                    keep.append(c)
+            keep += [c for c in full if c not in keep][: max(0, 420 - len(keep))]
+            return keep, f"{len(keep)} of the {len(full)} tcp-glue grid points"
+        return full, f"all {len(full)} tcp-glue grid points"
+
+    def impl_line(self, c):
+        f = lambda x: "-" if x is None else str(x)
+        return f"{f(c['timeout'])} {f(c['conc'])} {c['pattern'] or '-'}"
+
+    def parse_obs(self, c, line):
+        parts = line.split(";", 3)
+        if len(parts) != 4:
+            return {"delay": "?", "timeout": "?", "n": "?", "class": "PANIC unparsable: " + line[:80]}
+        return {"delay": parts[0], "timeout": parts[1], "n": parts[2], "class": parts[3]}
+
+    def coq_case(self, c):
+        l = "[" + "; ".join("true" if ch == "L" else "false" for ch in c["pattern"]) + "]"
+        return f"mkTCase {optN(c['timeout'])} {optnat(c['conc'])} {l}"
+
+    @staticmethod
+    def oo(x):
+        if x == "none":
+            return "(Some None)"
+        if x.isdigit():
+            return f"(Some (Some {x}))"
+        return "None"
+
+    def coq_obs(self, o):
+        cl = o["class"]
+        if cl.startswith("OK "):
+            k = f"(COk {int(cl[3:])}%nat)"
+        else:
+            k = {"ERR-timeout": "CErrTimeout", "ERR-exhausted": "CErrExhausted", "HANG": "CHang"}.get(cl)
+            if k is None:
+                k = "CErrOther" if cl.startswith("ERR-other") else "CPanic"
+        n = f"(Some {int(o['n'])}%nat)" if o["n"].isdigit() else "None"
+        return f"(mkTObs {self.oo(o['delay'])} {self.oo(o['timeout'])} {n} {k})"
+
+    def nontrivial_key(self, c, o):
+        return repr(sorted(c.items())) if len(c["pattern"]) >= 1 else None
+
+    def shrinks(self, c):
+        pat = c["pattern"]
+        for i in range(len(pat)):
+            yield dict(c, pattern=pat[:i] + pat[i + 1:])
+        for i, ch in enumerate(pat):
+            if ch == "L":
+                yield dict(c, pattern=pat[:i] + "C" + pat[i + 1:])
+        if c["conc"] not in (None, 0):
+            yield dict(c, conc=c["conc"] - 1)
+        if c["conc"] is not None:
+            yield dict(c, conc=None)
+        if c["timeout"] is not None and c["timeout"] != 1000 * self.MS:
+            yield dict(c, timeout=1000 * self.MS)
+
+    def histogram(self, cases, obss):
+        h = {"n_addresses": {}, "result": {}, "timeout": {}, "conc": {}, "delay_not_exact_ms": 0}
+        for c, o in zip(cases, obss):
+            for key, v in (("n_addresses", str(len(c["pattern"]))), ("result", o["class"].split()[0]),
+                           ("timeout", "None" if c["timeout"] is None else "set"),
+                           ("conc", str(c["conc"]))):
+                h[key][v] = h[key].get(v, 0) + 1
+            h["delay_not_exact_ms"] += o["delay"].isdigit() and int(o["delay"]) % self.MS != 0
+        return h
+
+
+def is_tcp(c):
+    return isinstance(c, dict)
+
+
 class HE(Plugin):
     harness_bin = "he"
-    coq_targets = ("he/Corr.vo",)
+    extra_bins = ("tcpglue",)
+    coq_targets = ("he/Corr.vo", "he/TcpCorr.vo")
     header = "From HD Require Import common.Base he.Model he.Spec he.Corr.\nOpen Scope N_scope."
     shard = 200
     impl_jobs = 8
@@ -23,13 +129,46 @@ class HE(Plugin):
     rule = ("case = (stagger delay, overall timeout, initial concurrency, list of scripted attempts (outcome, latency ms)); "
             "implementation = real EyeballSet under tokio's paused clock with scripted futures recording first-poll / "
             "ready / drop instants; model evaluated with the tie-break the implementation exhibited; non-trivial = at "
-            "least 2 attempts with at least two different outcomes or latencies; distinct = distinct case tuples")
+            "least 2 attempts with at least two different outcomes or latencies; distinct = distinct case tuples; "
+            "tcp-glue cases (dicts) = (happy_eyeballs_timeout ns, concurrency, pattern of listening/refusing 127.0.0.1 ports): the real "
+            "TcpTransport::connect_to_addrs is run, the delay/timeout it hands to EyeballSet::new and the number of attempts are read off "
+            "the library's own trace events and compared with tcp_cfg (he/Tcp.v), the result class (and, in sequential runs, the winning "
+            "candidate) with the model run on listening = Succ 0, refusing = Fail 0; real time is never compared")
     trusted = [
         "hook: re-export of crate-private happy_eyeballs::{EyeballSet, HappyEyeballsError} (feature verif-hooks), no behaviour change",
+        "tcp-glue: hand-written tracing::Subscriber in the harness reading the library's trace events 'happy eyeballs' (delay, timeout) and 'Starting N connection attempts'; Debug rendering of Duration parsed back to ns; loopback sockets (listening = std TcpListener, refusing = bound non-listening socket)",
+        "modelled (not verified): TcpConnecting::connect glue (he/Tcp.v): Duration / u32 = floor(total ns / n) as in core::time::Duration::checked_div",
         "modelled (not verified): EyeballSet::{push, process_all, join_next, join_next_with_timeout, finish}; oracle O4: tokio paused clock, Timeout polls the inner future before its timer; FuturesUnordered FIFO ready queue with unspecified order among simultaneous timer wake-ups (universally quantified tie-break)",
     ]
     assumptions = ["tokio timer wheel at 1 ms granularity under the paused clock (all scripted times are whole ms)",
                    "scripted attempts stand for TCP connects; real socket behaviour is R4"]
+
+    def __init__(self):
+        self.tcp = TcpGlue()
+        self.tcp.prop = self.prop
+
+    def header_for(self, case):
+        return self.tcp.header if is_tcp(case) else self.header
+
+    def evaluate(self, cases):
+        ia = [i for i, c in enumerate(cases) if not is_tcp(c)]
+        ib = [i for i, c in enumerate(cases) if is_tcp(c)]
+        obss = [None] * len(cases)
+        mism, monf = [], []
+        for idx, ev in ((ia, lambda cs: Plugin.evaluate(self, cs)), (ib, self.tcp.evaluate)):
+            if idx:
+                o, m, f = ev([cases[i] for i in idx])
+                for j, i in enumerate(idx):
+                    obss[i] = o[j]
+                mism += [idx[j] for j in m]
+                monf += [idx[j] for j in f]
+        return obss, sorted(mism), sorted(monf)
+
+    def parse_obs(self, c, line):
+        return self.tcp.parse_obs(c, line) if is_tcp(c) else self.he_parse_obs(c, line)
+
+    def coq_obs(self, o):
+        return self.tcp.coq_obs(o) if "class" in o else self.he_coq_obs(o)
 
     # case = [delay, timeout, conc, [[o, lat], ...]]
     def grid(self, maxn, lats, delays, timeouts, concs_extra=()):
@@ -68,14 +207,20 @@ class HE(Plugin):
             t = rng.choice([None, None, 0, 1, 4, 8, 15, 30, 60, 100])
             c = rng.choice([None, 0, 1, 2, 3, n, n + 2])
             cases.append([d, t, c, atts])
-        return cases, {"rule": rule + f" + {nrand} random cases N<=8 (seeded)", "exhaustive": exhaustive}
+        tcases, trule = self.tcp.generate(tier, rng)
+        return cases + tcases, {"rule": rule + f" + {nrand} random cases N<=8 (seeded) + {trule}", "exhaustive": exhaustive}
 
     def impl_line(self, c):
+        if is_tcp(c):
+            return self.tcp.impl_line(c)
+        return self.he_impl_line(c)
+
+    def he_impl_line(self, c):
         d, t, k, atts = c
         f = lambda x: "-" if x is None else str(x)
         return f"{f(d)} {f(t)} {f(k)} " + (",".join(f"{o}:{l}" for o, l in atts) or "-")
 
-    def parse_obs(self, c, line):
+    def he_parse_obs(self, c, line):
         res, at, evs = line.split(";", 2)
         events = []
         if evs != "-":
@@ -86,11 +231,16 @@ class HE(Plugin):
         return {"res": res, "at": None if at == "-" else int(at), "events": events}
 
     def coq_case(self, c):
+        if is_tcp(c):
+            return self.tcp.coq_case(c)
+        return self.he_coq_case(c)
+
+    def he_coq_case(self, c):
         d, t, k, atts = c
         al = "[" + "; ".join(f"mkAtt {OUT[o]} {l}" for o, l in atts) + "]"
         return f"mkCase (mkCfg {optN(d)} {optN(t)} {optnat(k)}) {al}"
 
-    def coq_obs(self, o):
+    def he_coq_obs(self, o):
         r = o["res"]
         if r.startswith("OK "):
             res = f"ROk {r[3:]}%nat"
@@ -102,12 +252,22 @@ class HE(Plugin):
         return f"(({res}, {optN(o['at'])}), {evs})"
 
     def nontrivial_key(self, c, o):
+        if is_tcp(c):
+            return self.tcp.nontrivial_key(c, o)
+        return self.he_nontrivial_key(c, o)
+
+    def he_nontrivial_key(self, c, o):
         atts = c[3]
         if len(atts) >= 2 and len({tuple(a) for a in atts}) >= 2:
             return repr(c)
         return None
 
     def shrinks(self, c):
+        if is_tcp(c):
+            return self.tcp.shrinks(c)
+        return self.he_shrinks(c)
+
+    def he_shrinks(self, c):
         d, t, k, atts = c
         for i in range(len(atts)):
             yield [d, t, k, atts[:i] + atts[i + 1:]]
@@ -122,6 +282,13 @@ class HE(Plugin):
             yield [d, t - 1, k, atts]
 
     def histogram(self, cases, obss):
+        a = [(c, o) for c, o in zip(cases, obss) if not is_tcp(c)]
+        b = [(c, o) for c, o in zip(cases, obss) if is_tcp(c)]
+        h = self.he_histogram([x[0] for x in a], [x[1] for x in a])
+        h["tcp_glue"] = self.tcp.histogram([x[0] for x in b], [x[1] for x in b])
+        return h
+
+    def he_histogram(self, cases, obss):
         h = {"n_attempts": {}, "result": {}, "delay": {}, "timeout": {}, "conc": {}, "ties_at_completion": 0}
         for c, o in zip(cases, obss):
             n = len(c[3])
